@@ -270,18 +270,18 @@ def run(ctx) -> None:
     bad = core.check_bases()
     if bad:
         raise core.AnchorMissing("class hierarchy changed: " + "; ".join(bad))
-    _inventory(ctx)
-    _replace(ctx)
-    _recon(ctx)
-    _eq_hash_str(ctx)
-    _combine(ctx)
-    _format_protocol(ctx)
+    ctx.step(_inventory, ctx)
+    ctx.step(_replace, ctx)
+    ctx.step(_recon, ctx)
+    ctx.step(_eq_hash_str, ctx)
+    ctx.step(_combine, ctx)
+    ctx.step(_format_protocol, ctx)
     ctx.expect_min("CTOR.combine", 2)
     ctx.expect_min("FORMAT.route", 2)
     from . import C05
-    C05._direction(ctx)         # 'subtraction of datetimes': operand normalisation and direction of __sub__/__rsub__
+    ctx.step(C05._direction, ctx)         # 'subtraction of datetimes': operand normalisation and direction of __sub__/__rsub__
     from . import C04
-    C04._siblings(ctx, pmod("date"), "Date", "_add_timedelta", "_subtract_timedelta", ["years", "months", "weeks", "days"])   # Date +/- timedelta like the native date
+    ctx.step(C04._siblings, ctx, pmod("date"), "Date", "_add_timedelta", "_subtract_timedelta", ["years", "months", "weeks", "days"])   # Date +/- timedelta like the native date
     ctx.expect_min("OVERRIDE.inventory", 26)
     ctx.expect_min("OVERRIDE.returns", 30)
     ctx.expect_min("REPLACE", 10)
